@@ -57,6 +57,10 @@ def _is_entry(n, pathvar):
 @rule('C19', 'C19-R1', 'key typestate: every use of self.openHandles[path] in HandleLimiter.write happens while the '
                        'entry is present, on every path including the open-failure / close-others / retry path')
 def r1(ctx):
+    _model_backed(ctx, 'C19-R1', _r1_structural)
+
+
+def _r1_structural(ctx):
     ix = ctx.ix
     f = ctx.fn(HANDLELIM, f'{CLS}.write')
     pathvar = f.args.args[1].arg
@@ -191,6 +195,10 @@ def r1(ctx):
 @rule('C19', 'C19-R2', 'a truncating open mode is used only for a path never opened before and is followed by '
                        'seen.add(path); every other open appends; the record is written exactly once per call')
 def r2(ctx):
+    _model_backed(ctx, 'C19-R2', _r2_structural)
+
+
+def _r2_structural(ctx):
     f = ctx.fn(HANDLELIM, f'{CLS}.write')
     pathvar = f.args.args[1].arg
     tries = [t for t in walk_no_nested(f) if isinstance(t, ast.Try)]
@@ -321,6 +329,10 @@ def r2(ctx):
 @rule('C19', 'C19-R2b', 'the set of already-written paths only grows: nothing but the constructor resets or shrinks self.seen '
                         '(otherwise a later re-open truncates a file that already holds records)')
 def r2b(ctx):
+    _model_backed(ctx, 'C19-R2b', _r2b_structural)
+
+
+def _r2b_structural(ctx):
     cls = ctx.ix.cls(HANDLELIM, CLS)
     bad = []
     for m in cls.body:
@@ -358,6 +370,10 @@ def r2b(ctx):
 @rule('C19', 'C19-R3', 'the open-failure arm raises only when no other handle is open (len(openHandles) <= 1, the '
                        'entry of the path itself), and otherwise closes the other handles and retries')
 def r3(ctx):
+    _model_backed(ctx, 'C19-R3', _r3_structural)
+
+
+def _r3_structural(ctx):
     f = ctx.fn(HANDLELIM, f'{CLS}.write')
     hs = [h for h in walk_no_nested(f) if isinstance(h, ast.ExceptHandler)]
     if len(hs) != 1:
@@ -471,6 +487,10 @@ def r3(ctx):
 
 @rule('C19', 'C19-R4', 'prune() and close() close a handle before they drop its entry; prune keeps the most recently written handles')
 def r4(ctx):
+    _model_backed(ctx, 'C19-R4', _r4_structural)
+
+
+def _r4_structural(ctx):
     for m in ('prune', 'close'):
         f = ctx.fn(HANDLELIM, f'{CLS}.{m}')
         cfg = CFG(f.body, exceptions=False)
@@ -570,6 +590,10 @@ def r5(ctx):
 @rule('C19', 'C19-R6', 'no arithmetic of the limiter can fail on a legal setting: a configuration value (constructor parameter stored on self) is never a divisor / '
                        'modulus (pruneEvery = 0 and maxHandles = 0 are accepted settings meaning "prune after every write" / "keep nothing open")')
 def r6(ctx):
+    _model_backed(ctx, 'C19-R6', _r6_structural)
+
+
+def _r6_structural(ctx):
     cls = ctx.ix.cls(HANDLELIM, CLS)
     init = [m for m in cls.body if isinstance(m, ast.FunctionDef) and m.name == '__init__']
     params = {a.arg for a in init[0].args.args[1:]} if init else set()
@@ -590,6 +614,258 @@ def r6(ctx):
     ctx.emit('C19-R6', not bad, HANDLELIM, bad[0][1] if bad else cls, f'{n} division / modulo operations in HandleLimiter, none by a configuration value' if not bad else
              f'{CLS}.{bad[0][0]} computes `{src(bad[0][1])[:50]}`: the setting 0 (a legal value) raises ZeroDivisionError while a record is written', key='no-division-by-configuration',
              what='HandleLimiter divides by a configuration value that may be 0')
+
+
+def _model_backed(ctx, rid, structural):
+    """HandleLimiter clauses: the structural reading of the clause is kept as it is when the interpreted model of the class (limiter_model) cannot be
+    run.  When it can, it decides: a model that passes every scenario overrides what the structural rule could not recognise in a restructured
+    method (its discharged obligations stay as supporting detail), a model that fails is reported with its scenario next to the structural findings."""
+    from ..core import Ctx, VIOLATED, UNDECIDED
+    sub = Ctx(ctx.ix, 'C19', ctx.tier)
+    sub._limiter_model = getattr(ctx, '_limiter_model', None) if hasattr(ctx, '_limiter_model') else None
+    if not hasattr(ctx, '_limiter_model'):
+        delattr(sub, '_limiter_model')
+    err = None
+    try:
+        structural(sub)
+    except AnalysisError as e_:
+        err = e_
+    for k_, v_ in sub.counters.items():
+        if isinstance(v_, set):
+            ctx.counters[k_] |= v_
+        else:
+            ctx.counters[k_] += v_
+    for k_, v_ in getattr(sub, 'exhaustive', {}).items():
+        ctx.exhaustive[k_] = v_
+    if hasattr(sub, 'handler_states'):
+        ctx.handler_states = sub.handler_states
+    m = limiter_model(ctx)
+    if m is None:
+        ctx.obligations.extend(sub.obligations)
+        if err is not None:
+            raise err
+        return
+    ok, nsc, wit = m
+    f = ctx.fn(HANDLELIM, f'{CLS}.write')
+    if ok:
+        kept = [o for o in sub.obligations if o.status not in (VIOLATED, UNDECIDED)]
+        dropped = len(sub.obligations) - len(kept)
+        ctx.obligations.extend(kept)
+        if dropped or err is not None or not kept:
+            ctx.emit(rid, True, HANDLELIM, f, f'HandleLimiter interpreted on {nsc} scenarios (write sequences over three paths, maxHandles 0..2, pruneEvery 0..3, open-handle budgets, one-off open '
+                     f'failures, files left from an earlier run, two limiters in a row): no write fails while room can be made, every file holds exactly its records once, close() leaves nothing open'
+                     + (f' (the structural reading did not recognise {dropped} construct(s) of the restructured methods)' if dropped or err is not None else ''), key='limiter-model')
+    else:
+        ctx.obligations.extend(sub.obligations)
+        ctx.emit(rid, False, HANDLELIM, f, f'HandleLimiter interpreted on model scenarios: {wit.get("problem")} - scenario {({k_: v_ for k_, v_ in wit.items() if k_ != "problem"})}', key='limiter-model', witness=wit,
+                 what='HandleLimiter: ' + str(wit.get('problem')))
+
+
+def limiter_model(ctx):
+    """HandleLimiter (write / prune / close, and whatever private helpers they call) run by the abstract interpreter against a model of the file
+    system: paths are tokens, a handle remembers its path, mode and whether it is open; opening in a 'w' mode empties the file; opening fails
+    (OSError) while the number of open handles has reached the budget of the scenario (EMFILE), or once at a chosen attempt (transient failure).
+    Scenarios: every write sequence over three paths of length <= 5 from a fixed set, maxHandles 1..2, pruneEvery 1..3, budgets 1..3 / unlimited,
+    plain and gzip method.  Required: no exception while closing the other handles can make room (budget >= 1); an exception of a transient failure
+    only when no other handle was open; afterwards every file holds exactly the records written to it, in order, once; close() leaves no handle open.
+    Returns (ok, scenarios, witness) or None when the class is outside the interpreted subset.  Cached per run."""
+    if hasattr(ctx, '_limiter_model'):
+        return ctx._limiter_model
+    import itertools
+    from ..consteval import run_function, Unfoldable, Raised, ExternalRef, LocalFn, fold, TOP
+    ctx._limiter_model = None
+    mod = ctx.ix.module(HANDLELIM)
+    meths = {q.split('.')[-1]: d[0] for q, d in mod.defs.items() if q.startswith(CLS + '.') and isinstance(d[0], ast.FunctionDef)}
+    if 'write' not in meths or '__init__' not in meths or 'close' not in meths:
+        return None
+    seqs = [('A',), ('A', 'A'), ('A', 'B', 'A'), ('A', 'B', 'C', 'A'), ('A', 'B', 'A', 'C', 'B'), ('A', 'B', 'C', 'B', 'A'), ('A', 'A', 'B', 'B', 'A')]
+    n = 0
+
+    class World:
+        def __init__(self, budget, fail_at):
+            self.files, self.handles, self.opens, self.budget, self.fail_at, self.clock = {}, [], 0, budget, fail_at, 0
+            self.failed_alone = None
+            self.lenient = False
+
+        def n_open(self):
+            return sum(1 for h in self.handles if h['open'])
+
+    def make_hook(world, env_root):
+        def call_method(ev, name, call, env):
+            m = meths[name]
+            args = ['<self>'] + [ev.ev(x, env) for x in call.args]
+            kw = {k.arg: ev.ev(k.value, env) for k in call.keywords if k.arg}
+            out = {}
+            try:
+                r = run_function(m, args, kw, env={k_: v_ for k_, v_ in env.items() if k_.startswith('self.') or k_ in ('gzip.open', 'open')}, budget=200000, call_hook=hook, out_scope=out, is_subclass=None, active=[])
+            finally:
+                for k_, v_ in out.items():
+                    if k_.startswith('self.'):
+                        env[k_] = v_
+            return r
+
+        def hook(ev, call, env):
+            d = dotted(call.func) or ''
+            if d in ('gzip.open', 'open'):
+                a = [ev.ev(x, env) for x in call.args]
+                kw = {k.arg: ev.ev(k.value, env) for k in call.keywords if k.arg}
+                path, mode = a[0], (a[1] if len(a) > 1 else kw.get('mode', 'r'))
+                world.opens += 1
+                if (world.budget is not None and world.n_open() >= world.budget) or world.opens == world.fail_at:
+                    if world.n_open() == 0:
+                        world.failed_alone = True
+                    raise Raised('OSError', 'too many open files', errno=24 if world.opens != world.fail_at else 23)       # EMFILE for the budget, ENFILE for the one-off failure
+                if mode.startswith('w'):
+                    world.files[path] = []
+                else:
+                    world.files.setdefault(path, [])
+                h = {'path': path, 'mode': mode, 'open': True, 'gz': d == 'gzip.open', 'id': len(world.handles)}
+                world.handles.append(h)
+                return h
+            if d == 'time.time':
+                world.clock += 1
+                return world.clock
+            if d == 'bytes':
+                return ('bytes', ev.ev(call.args[0], env))
+            if d == 'print':
+                return None
+            if d in ('os.path.exists', 'os.path.isfile'):
+                return ev.ev(call.args[0], env) in world.files
+            if isinstance(call.func, ast.Attribute):
+                if d.startswith('self.') and d[5:] in meths and '.' not in d[5:]:
+                    return call_method(ev, d[5:], call, env)
+                if call.func.attr in ('write', 'close', 'flush'):
+                    try:
+                        recv = ev.ev(call.func.value, env)
+                    except Unfoldable:
+                        return NotImplemented
+                    if isinstance(recv, dict) and 'mode' in recv and 'open' in recv:
+                        if call.func.attr == 'close':
+                            recv['open'] = False
+                            return None
+                        if call.func.attr == 'flush':
+                            return None
+                        if not recv['open']:
+                            raise Raised('ValueError', 'write to closed file')
+                        x = ev.ev(call.args[0], env)
+                        if recv['gz'] != isinstance(x, tuple) and not world.lenient:
+                            raise Raised('TypeError', 'text / bytes mismatch')
+                        world.files[recv['path']].append(x[1] if isinstance(x, tuple) else x)
+                        return None
+            return NotImplemented
+        return hook
+    try:
+        for seq in seqs:
+            for maxh, prune_every, budget, method, fail_at in itertools.product((0, 1, 2), (0, 1, 3), (None, 0, 1, 2), (0, 1, None), (None, 1, 2, 3)):
+                if budget is not None and fail_at is not None:
+                    continue
+                if (method is None or budget == 0) and not (maxh == 2 and prune_every == 3 and fail_at is None and (budget in (None, 0))):
+                    continue            # the unset method and the 'nothing can be opened' world: one configuration each
+                if (maxh == 0 or prune_every == 0) and (budget is not None or fail_at is not None or method == 0):
+                    continue            # the extreme settings are run without failures only
+                n += 1
+                world = World(budget, fail_at)
+                # files left over from an earlier run: the first open of a path has to empty them
+                world.files = {'A': ['stale'], 'C': ['stale']}
+                world.lenient = method is None        # which of text / bytes an unset method writes is not part of the property
+                env = {}
+                hook = make_hook(world, env)
+                out = {}
+                # class level constants, the methods as bound values (key functions), the two openers as values
+                base_env = {'gzip.open': ExternalRef('gzip.open'), 'open': ExternalRef('open')}
+                cdef = ctx.ix.cls(HANDLELIM, CLS)
+                for st_ in cdef.body:
+                    if isinstance(st_, ast.Assign) and len(st_.targets) == 1 and isinstance(st_.targets[0], ast.Name):
+                        v_ = fold(st_.value, dict(base_env))
+                        if v_ is not TOP:
+                            base_env['self.' + st_.targets[0].id] = v_
+                for mn_, md_ in meths.items():
+                    base_env.setdefault('self.' + mn_, LocalFn(md_, env, bound='<self>'))
+                run_function(meths['__init__'], ['<self>'], {'maxHandles': maxh, 'pruneEvery': prune_every}, env=dict(base_env), budget=20000, call_hook=hook, out_scope=out)
+                env.update(base_env)
+                env.update({k_: v_ for k_, v_ in out.items() if k_.startswith('self.')})
+                written = {}
+                case = {'writes': list(seq), 'maxHandles': maxh, 'pruneEvery': prune_every, 'open-handle budget': budget, 'method': method, 'open attempt that fails once': fail_at}
+                raised = None
+                for i, p_ in enumerate(seq):
+                    rec = f'{p_}{i}'
+                    out = {}
+                    try:
+                        run_function(meths['write'], ['<self>', p_, rec], {'method': method}, env=dict(env), budget=30000, call_hook=hook, out_scope=out)
+                    except Raised as r_:
+                        raised = (i, r_.name)
+                        env.update({k_: v_ for k_, v_ in out.items() if k_.startswith('self.')})
+                        break
+                    except Unfoldable as u_:
+                        if 'budget' in str(u_):
+                            ctx._limiter_model = (False, n, dict(case, problem=f'write number {i + 1} does not come back: the open is retried for ever (nothing is left to close and the failure is not raised)'))
+                            return ctx._limiter_model
+                        raise
+                    env.update({k_: v_ for k_, v_ in out.items() if k_.startswith('self.')})
+                    written.setdefault(p_, []).append(rec)
+                if budget == 0 and raised is None:
+                    ctx._limiter_model = (False, n, dict(case, problem='no file can be opened at all, yet write() returns as if the record had been written'))
+                    return ctx._limiter_model
+                if raised is not None and raised[1] != 'OSError':
+                    ctx._limiter_model = (False, n, dict(case, problem=f'write number {raised[0] + 1} fails with {raised[1]}: not the open failure itself but a follow-up error of an entry left without a handle'))
+                    return ctx._limiter_model
+                if raised is not None:
+                    if (budget is not None and budget > 0) or not world.failed_alone:
+                        ctx._limiter_model = (False, n, dict(case, problem=f'write number {raised[0] + 1} raises {raised[1]} although closing the other open handles would have made room'))
+                        return ctx._limiter_model
+                    continue
+                out = {}
+                run_function(meths['close'], ['<self>'], env=dict(env), budget=100000, call_hook=hook, out_scope=out)
+                leaked = [h['path'] for h in world.handles if h['open']]
+                if leaked:
+                    ctx._limiter_model = (False, n, dict(case, problem=f'after close() handles of {sorted(set(leaked))} are still open: what was written through them is not flushed'))
+                    return ctx._limiter_model
+                for p_, recs in written.items():
+                    if world.files.get(p_) != recs:
+                        ctx._limiter_model = (False, n, dict(case, problem=f'file {p_} holds {world.files.get(p_)} after the records {recs} were written to it'))
+                        return ctx._limiter_model
+        # a second limiter of the same process that writes the same path anew starts the file over (what was opened before is per instance)
+        for method in (0, 1):
+            n += 1
+            world = World(None, None)
+            world.files = {}
+            shared = {'gzip.open': ExternalRef('gzip.open'), 'open': ExternalRef('open')}
+            cdef = ctx.ix.cls(HANDLELIM, CLS)
+            for st_ in cdef.body:
+                if isinstance(st_, ast.Assign) and len(st_.targets) == 1 and isinstance(st_.targets[0], ast.Name):
+                    v_ = fold(st_.value, dict(shared))
+                    if v_ is not TOP:
+                        shared['self.' + st_.targets[0].id] = v_          # one object for all instances, like a class attribute
+            last = None
+            for inst in (1, 2):
+                env = {}
+                hook = make_hook(world, env)
+                out = {}
+                be = dict(shared)
+                for mn_, md_ in meths.items():
+                    be.setdefault('self.' + mn_, LocalFn(md_, env, bound='<self>'))
+                run_function(meths['__init__'], ['<self>'], {'maxHandles': 2, 'pruneEvery': 3}, env=dict(be), budget=20000, call_hook=hook, out_scope=out)
+                env.update(be)
+                env.update({k_: v_ for k_, v_ in out.items() if k_.startswith('self.')})
+                for i in range(2):
+                    out = {}
+                    run_function(meths['write'], ['<self>', 'A', f'run{inst}-{i}'], {'method': method}, env=dict(env), budget=200000, call_hook=hook, out_scope=out)
+                    env.update({k_: v_ for k_, v_ in out.items() if k_.startswith('self.')})
+                out = {}
+                run_function(meths['close'], ['<self>'], env=dict(env), budget=100000, call_hook=hook, out_scope=out)
+                last = [f'run{inst}-0', f'run{inst}-1']
+            if world.files.get('A') != last:
+                ctx._limiter_model = (False, n, {'scenario': 'two limiters, one after the other, write the same path', 'problem': f'file A holds {world.files.get("A")} after the second limiter wrote {last}: '
+                                                 'what has been opened before is remembered across instances, the second run appends to the output of the first'})
+                return ctx._limiter_model
+    except (Unfoldable, Raised) as ex_:
+        ctx._limiter_model_reason = str(ex_)
+        return None
+    except Exception as ex_:
+        ctx._limiter_model_reason = repr(ex_)
+        return None
+    ctx._limiter_model = (True, n, None)
+    return ctx._limiter_model
 
 
 def mate_labels(ctx):
